@@ -15,7 +15,7 @@ fn originals() -> Vec<M> {
     let a = |p: &str, o: &str| M::Assertion(Box::new(t(p)), Box::new(t(o)));
     let mut v = vec![t("Secret"), M::Node(Box::new(t("Secret")), vec![a("meta", "data")]), M::Wrapped(Box::new(M::Node(Box::new(t("Secret")), vec![a("meta", "data"), a("k", "v")])))];
     // nodes whose subject is a node (decrypting must rebuild exactly that)
-    v.extend(crate::families::nsn().into_iter().take(2));
+    v.extend(crate::families::nsn().into_iter().take(2)); v.extend(crate::families::valued_few().into_iter().step_by(3));
     v
 }
 /// all policies: tuples of g groups (t_i, n_i), 1<=t<=n<=N, group threshold 1..g
